@@ -136,8 +136,12 @@ POOL = {
     "drop": "DROP TABLE zqt{w}",
     "rename": "ALTER TABLE zqt{r} RENAME TO zqt{w}",
     "update": "UPDATE zqt{w} SET ca = zqt{r}.cb FROM zqt{r} WHERE zqt{w}.id = zqt{r}.id",
+    # metadata-free analysis must not learn from earlier statements: a wildcard / an unqualified column over a join stay
+    # what they are on their own even when an earlier statement of the script wrote the table they read
+    "insert_star": "INSERT INTO zqt{w} SELECT * FROM zqt{r}",
+    "insert_unq_join": "INSERT INTO zqt{w} SELECT ca FROM zqt{r} AS a JOIN zqt{r2} AS b ON a.id = b.id",
 }
-DIALECT_KINDS = {"ansi": ["insert", "insert_join", "ctas", "view", "select", "values", "drop", "rename", "update"],
+DIALECT_KINDS = {"ansi": ["insert", "insert_join", "ctas", "view", "select", "values", "drop", "rename", "update", "insert_star", "insert_unq_join"],
                  "postgres": ["insert", "ctas", "select", "select_into", "drop", "values"],
                  "tsql": ["insert", "select", "select_into", "drop", "values"]}
 
@@ -254,6 +258,8 @@ def obligations(tier, seed):
             else (pairs + rnd.sample(triples, min(len(triples), 60)) + [tuple(rnd.choice(kinds) for _ in range(4)) for _ in range(10)])
         for ks in chosen:
             obs.append(AssemblyOb(ks, d))
+    for ks in [("insert", "insert_star"), ("ctas", "insert_star"), ("ctas", "insert_unq_join"), ("insert", "insert_star", "insert_star")]:
+        obs.append(AssemblyOb(ks, "ansi"))
     for ks in [("insert", "select_into"), ("select", "select_into"), ("select_into", "select_into"), ("insert", "drop", "insert"), ("select", "insert", "select_into")]:
         obs.append(AssemblyOb(ks, "tsql", tsql_mode=True))
     obs.append(AssemblyOb(("insert", "drop"), "tsql", tsql_mode=True, same_text=True))
